@@ -479,17 +479,21 @@ def fam_files(rng, n, dist):
     for _ in range(n):
         a = AB(rng, dist)
         a.local_file(b"precious.txt", b"precious\ncontent\n")
+        pct = rng.choice([b"100%", b"a%20b.txt", b"%1%", b"50%.txt", b"%s%d%n"])
+        a.local_file(pct, b"percent")
         a.local_file(b"other.bin", S_payload(rng))
         a.open((220,))
         for _ in range(rng.choice([2, 4, 7])):
             if not a.connected:
                 break
             k = rng.choice(["existing", "existing-derived", "overlong", "overlong-derived", "nodir", "empty-name", "refused-setup",
-                            "refused-cmd", "complete", "complete-derived", "len255", "again"])
+                            "refused-cmd", "complete", "complete-derived", "len255", "again", "percent-uncreatable"])
             dist.add("get-case:" + k)
             i = len(a.lines)
             if k == "existing":
-                a.get(b"/pub/whatever", b"precious.txt")
+                a.get(b"/pub/whatever", rng.choice([b"precious.txt", pct]))
+            elif k == "percent-uncreatable":
+                a.get(b"/pub/whatever", rng.choice([b"nodir/%1%", b"nodir/100%.bin", b"%" * 300]))
             elif k == "existing-derived":
                 a.get(rng.choice([b"/pub/precious.txt", b"dir\\other.bin", b"other.bin"]))
             elif k == "overlong":
